@@ -360,3 +360,31 @@ def lemma_identity_before_completeness(model: Model, run: Run) -> None:
             run.fail(Finding("L7-identifier-rejected-before-waiting-for-content", fi.qualname, norm(r.exc.func if isinstance(r.exc, ast.Call) else r.exc),
                              f"{fi.name} raises the incomplete-data signal (line {late[0].lineno}) before it rejects a wrong identifier (line {r.lineno}): "
                              "invalid input is buffered until its claimed length has arrived instead of failing the session at once", model.loc(fi.module, r)))
+
+
+def lemma_peek_is_pure(model: Model, run: Run) -> None:
+    """L9: a reader method that does not advance the view (peek_header, get_remaining_data, __bool__ ...) writes no reader
+    state.  Anything it remembers (a cached header keyed on a position or on id()) can be stale after the next advance, and
+    the movers do not know they have to reset it (L6 only compares the movers with each other)."""
+    rc = model.cls(READER)
+
+    def writes(m_) -> Set[str]:
+        return {n_.attr for n_ in ast.walk(m_.node) if isinstance(n_, ast.Attribute) and isinstance(n_.ctx, (ast.Store, ast.Del)) and norm(n_.value) == "self"}
+    n = 0
+    for name, fi in sorted(rc.methods.items()):
+        if name == "__init__":
+            continue
+        ws = writes(fi)
+        # movers: write the view attribute, directly or through another method of the class
+        calls_mover = any(isinstance(c_, ast.Call) and isinstance(c_.func, ast.Attribute) and norm(c_.func.value) == "self" and c_.func.attr in rc.methods and
+                          "_view" in writes(rc.methods[c_.func.attr]) for c_ in ast.walk(fi.node))
+        if "_view" in ws or calls_mover:
+            continue
+        n += 1
+        ok = not ws
+        run.ob("L9-non-advancing-methods-keep-no-state", ok, {"method": name, "writes": sorted(ws)})
+        if not ok:
+            run.fail(Finding("L9-non-advancing-methods-keep-no-state", fi.qualname, f"writes={sorted(ws)}",
+                             f"ASN1Reader.{name} does not advance the reader but writes {sorted(ws)}: whatever it remembers is not reset by the methods that advance "
+                             "and can describe a value that has already been consumed", model.loc(fi.module, fi.node)))
+    run.floor("non-advancing reader methods", n, 2)
